@@ -1,6 +1,7 @@
 import Pywbem.Model.Store
 import Pywbem.Model.StoreClient
 import Pywbem.Model.StoreAlias
+import Pywbem.Model.StoreSubclass
 open Lean Pywbem.Proto Pywbem.Model.Store
 
 abbrev SName := Pywbem.Model.Store.Name
@@ -296,9 +297,22 @@ def handleAlias (j : Json) : Json :=
 
 end AliasDrv
 
+/-- {"subclasses":{"classes":[cls,…],"targets":[str,…]}} →
+    {"subs":[[str,…] per target], "down":[[bool per class] per target], "up":[[bool per class] per target]}
+    (`subclassNames` / `inEnumDown` of Model/StoreSubclass.lean, `descends` of Model/Store.lean) -/
+def handleSubclasses (j : Json) : Json :=
+  match (getArr j "classes").mapM parseCls, (getArr j "targets").mapM jsonToChars? with
+  | some cs, some ts =>
+    Json.mkObj [
+      ("subs", Json.arr (ts.map (fun t => Json.arr ((subclassNames cs cs.length t).map cpsToJson).toArray)).toArray),
+      ("down", Json.arr (ts.map (fun t => Json.arr (cs.map (fun c => Json.bool (inEnumDown cs t c.name))).toArray)).toArray),
+      ("up", Json.arr (ts.map (fun t => Json.arr (cs.map (fun c => Json.bool (descends cs cs.length c.name t))).toArray)).toArray)]
+  | _, _ => Json.mkObj [("bad", "subclasses request")]
+
 def handleAny (j : Json) : Json :=
-  match getField j "alias" with
-  | Json.null => handle j
-  | _ => AliasDrv.handleAlias j
+  match getField j "alias", getField j "subclasses" with
+  | Json.null, Json.null => handle j
+  | Json.null, sj => handleSubclasses sj
+  | _, _ => AliasDrv.handleAlias j
 
 def main : IO Unit := runDriver handleAny
